@@ -123,7 +123,7 @@ RD_NEED = ['LiveStart', 'CacheNotify', 'ZkExists', 'Sleep', 'Heartbeat', 'Presen
 RD_ONE = dict(insts=['i1'], mvers=[1], pvers=[1], prior=[(1, 1)], newflags=[True])
 RD_TWO = dict(insts=I2, mvers=[1], pvers=[1], prior=[(1, 1)], newflags=[True])
 RD_QUICK = [('ready', RD_ONE, dict(rd=2, hb=2, env=1, sync=3, setup=2))]
-RD_THOROUGH = [('ready', RD_ONE, dict(rd=3, hb=2, env=2, crash=1, sync=5, setup=3)),
+RD_THOROUGH = [('ready', RD_ONE, dict(rd=3, hb=2, env=1, crash=1, sync=5, setup=3)),
                ('ready2', RD_TWO, dict(rd=2, hb=2, env=1, sync=4, setup=3))]
 # what a reader of `.ready` might expect and the code does not give: TLC must REFUTE these
 RD_IDEAL = [('InvReadyIdeal', RD_ONE, dict(rd=2, hb=1, sync=2, setup=2)),
@@ -220,7 +220,7 @@ def _readiness_mc_done(ctx, futs, ideal):
 
 
 def _sim(ctx):
-    n_tlc = 80 if ctx.quick else 600
+    n_tlc = 70 if ctx.quick else 600
     mod, cfg, files = mc_files('gen', bounds=GEN_BOUNDS, invariants=(), **GEN)
     behaviours, cmd = tlc.simulate(SPEC_DIR, mod, cfg, num=n_tlc, depth=48 if ctx.quick else 60,
                                    seed=ctx.seed * 31 + 12, procs=6 if ctx.quick else 12,
@@ -230,7 +230,7 @@ def _sim(ctx):
 
 def _gen(ctx, behaviours, cmd):
     """Step 2: behaviours of the same spec + seeded random histories."""
-    n_rnd = 80 if ctx.quick else 600
+    n_rnd = 70 if ctx.quick else 600
     ctx.cmds.append(cmd)
     rng = random.Random(ctx.seed * 7919 + 12)
     out = [('dir', copy.deepcopy(h)) for h in DIRECTED]
